@@ -1903,7 +1903,15 @@ class OR(LogicalBinaryOperator, ABC):
 @dataclass(eq=False, repr=False)
 class Union(OR):
     """
-    This operator is a version of the OR operator that always evaluates both the left and the right operand.
+    This operator is a version of the OR operator whose operands range over different variables. The right operand is
+    evaluated for every binding for which the left operand is false (which binds the variables of the left operand as
+    well: every result is one assignment of all the variables, and no assignment is produced twice).
+    """
+
+    _evaluates_right_on_its_own_: ClassVar[bool] = False
+    """
+    Whether the right operand is evaluated a second time without the bindings of the left operand (a next_rule fires in
+    addition to what fired before it).
     """
 
     def _evaluate__(
@@ -1915,7 +1923,8 @@ class Union(OR):
         self._eval_parent_ = parent
 
         yield from self.evaluate_left(sources)
-        yield from self.evaluate_right(sources)
+        if self._evaluates_right_on_its_own_:
+            yield from self.evaluate_right(sources)
 
 
 @dataclass(eq=False, repr=False)
